@@ -743,6 +743,9 @@ def unpack_dataclass(spec: ValueSpec) -> Optional[Expression]:
             spec.builder.ensure_object_imported(spec.origin_type, cls_alias)
             return f"{cls_alias}.{method_name}({method_args})"
         else:
+            if not hasattr(spec.attrs, method_name):
+                # self-referencing dataclass: the method is being compiled
+                return f"_cls.{method_name}({method_args})"
             method_name_alias = f"{cls_alias}_{method_name}"
             spec.builder.ensure_object_imported(
                 getattr(spec.attrs, method_name),
